@@ -171,7 +171,7 @@ def extract_lines(tlc_out, prefix, dest):
     return n
 
 
-def tlc_trace(module, trace, outpath, timeout=1800, heap="8g", focus=()):
+def tlc_trace(module, trace, outpath, timeout=1800, heap="8g", focus=(), cont=False):
     """Validate one NDJSON trace against a trace specification.
     Returns dict(accepted, at, ev, tag, events)."""
     cfg = os.path.join(SPEC, module + ".cfg")
@@ -185,6 +185,9 @@ def tlc_trace(module, trace, outpath, timeout=1800, heap="8g", focus=()):
             del e[k]
     for f in focus:
         e["F_" + f] = "1"
+    e.pop("F_CONTINUE", None)
+    if cont:
+        e["F_CONTINUE"] = "1"
     cmd = ["timeout", str(timeout), "tlc", "-workers", "1", "-metadir", meta, "-cleanup", "-noGenerateSpecTE",
            "-config", cfg, os.path.join(SPEC, module + ".tla")]
     t0 = time.time()
@@ -197,6 +200,7 @@ def tlc_trace(module, trace, outpath, timeout=1800, heap="8g", focus=()):
            "nonfocus": sorted(set(re.findall(r'<<"NONFOCUS", \d+, (\{[^}]*\}, "[^"]*")>>', re.sub(r"\s+", " ", out).replace("<< ", "<<").replace(" >>", ">>"))))}
     if p.returncode == 124:
         raise ToolError(f"TLC timed out validating {trace}")
+    res["viol"] = [(int(a), b) for a, b in re.findall(r'<<"VIOL", (\d+), "([^"]*)">>', re.sub(r"\s+", " ", out).replace("<< ", "<<").replace(" >>", ">>"))]
     m = re.search(r'<<"TRACE-ACCEPTED", (\d+)>>', out)
     if m and "Model checking completed. No error has been found" in out:
         res["accepted"] = True
